@@ -63,6 +63,10 @@ func genQuotaCase(t *rapid.T) quotaCase {
 	}
 	if c.TB {
 		c.Burst = c.Total + genInt32Around(t, "burstExtra", 0, c.Total)
+		if rapid.IntRange(0, 3).Draw(t, "burstBelowQPS") == 0 {
+			// a global burst below the global qps is legal (validation only demands global >= local for each value)
+			c.Burst = genInt32Around(t, "smallBurst", 1, c.Total)
+		}
 	}
 	c.Clients = rapid.IntRange(1, 50).Draw(t, "clients")
 	switch rapid.IntRange(0, 4).Draw(t, "allocatedClass") {
@@ -163,7 +167,7 @@ func checkQuota(tb bool, total, globalBurst, sumBefore, current, next, burst int
 
 // TestPropCalculateNextQuota: the allocation arithmetic for every numeric input.
 func TestPropCalculateNextQuota(t *testing.T) {
-	sub := stats.NewSub("calculateNextQuota", "rapid: (type, global limit 1..1e5, burst, clients 1..50, sum on record 0..2*limit+10, previous quota 0 or 1..sum, reported usage, request level honest or 0..200, global level 0..150) -> calculateNextQuota (hook); oracle = validity predicate of the statement; non-trivial = sum on record within 10% of the limit or above it, or previous quota 0; distinct by FNV-64 of the tuple")
+	sub := stats.NewSub("calculateNextQuota", "rapid: (type, global limit 1..1e5, burst (above the limit or, one time in four, in 1..limit), clients 1..50, sum on record 0..2*limit+10, previous quota 0 or 1..sum, reported usage, request level honest or 0..200, global level 0..150) -> calculateNextQuota (hook); oracle = validity predicate of the statement; non-trivial = sum on record within 10% of the limit or above it, or previous quota 0; distinct by FNV-64 of the tuple")
 	stats.Check(t, stats.N(200000, 3000000), func(t *rapid.T) {
 		c := genQuotaCase(t)
 		next, burst, ok := runCalc(c)
@@ -218,7 +222,7 @@ func buildCluster(schemas map[string]schemaModel, order []string) *proxyv1alpha1
 }
 
 func TestPropReportHistories(t *testing.T) {
-	sub := stats.NewSub("report-histories", "rapid state machine on the real limiter (local store / API-backed write-through store): ops remove a schema (1-3 schemas per upstream), report(instance, usage) by honest instances, new instance, change of the global limit (cluster object -> UpstreamConditionHandler), reclaim of a silent instance; after every report: answered quota in [1, limit], the two sum clauses against the model's sum of last answers, store contents (ListUpstream) = model, recorded status sum in <upstream>.state = actual sum; non-trivial = history contains a limit change or a report while the sum is within 10% of / above the limit; distinct by FNV-64 of the op trace")
+	sub := stats.NewSub("report-histories", "rapid state machine on the real limiter (local store / API-backed write-through store; token-bucket schemas with a global burst of 1-2 times the global qps or, one time in four, below it): ops remove a schema (1-3 schemas per upstream), report(instance, usage) by honest instances, new instance, change of the global limit (cluster object -> UpstreamConditionHandler), reclaim of a silent instance; after every report: answered quota in [1, limit], the two sum clauses against the model's sum of last answers, store contents (ListUpstream) = model, recorded status sum in <upstream>.state = actual sum; non-trivial = history contains a limit change or a report while the sum is within 10% of / above the limit; distinct by FNV-64 of the op trace")
 	stats.Check(t, stats.N(1500, 25000), func(t *rapid.T) {
 		storeKind := rapid.SampledFrom([]string{"local", "k8s"}).Draw(t, "store")
 		box := limbox.New(storeKind, 1, "srv")
@@ -245,6 +249,10 @@ func TestPropReportHistories(t *testing.T) {
 			}
 			if m.tb {
 				m.burst = m.total + int32(rapid.IntRange(0, int(m.total)).Draw(t, label+".burstExtra"))
+				if local := m.total/4 + 1; local < m.total && rapid.IntRange(0, 3).Draw(t, label+".burstBelowQPS") == 0 {
+					// a global burst below the global qps is legal: validation only demands that it is not below the local burst
+					m.burst = int32(rapid.IntRange(int(local), int(m.total)).Draw(t, label+".smallBurst"))
+				}
 			}
 			return m
 		}
